@@ -113,8 +113,13 @@ def scenario(em, ops, log, depth_limit=2):
                 if cb is not None:
                     em.off(op[1], cb)
         elif kind == 'emit':
-            em.emit(op[1], 1, 'x')
+            # the emitted arguments arrive as they are, whatever their number and shape (a single list is ONE argument)
+            pattern = EMIT_ARGS[pos % len(EMIT_ARGS)]
+            em.emit(op[1], *pattern)
     return log
+
+
+EMIT_ARGS = [(1, 'x'), ([1, 2],), (), ((3, 4),), ({'k': 1},), (None,), ([],), ([1, 2], [3]), ('abc',)]
 
 
 def all_ops():
